@@ -242,6 +242,18 @@ func (h *FBDNSDB) ServeDNSWithRCODE(ctx context.Context, w dns.ResponseWriter, r
 				if len(r.Question) == 0 {
 					// SetReply keeps the cached question when the request has none
 					resp.Question = nil
+				} else {
+					// The cached records carry the owner-name spelling of the query that
+					// populated the entry. An uncached answer spells them as this query
+					// does, which is also what lets them compress against the question:
+					// for a long name the other spelling can push the reply over the
+					// client's buffer and truncate it.
+					qname := r.Question[0].Name
+					for _, rr := range resp.Answer {
+						if hdr := rr.Header(); len(hdr.Name) == len(qname) && strings.EqualFold(hdr.Name, qname) {
+							hdr.Name = qname
+						}
+					}
 				}
 				if r.IsEdns0() != nil {
 					o = new(dns.OPT)
